@@ -41,6 +41,19 @@ inline void fail_mid( std::string const& sig, std::string const& msg )
     cds_verif::fail_sig( sig.c_str(), msg.c_str());
 }
 
+} // namespace vh
+
+// AddressSanitizer units: a memory error inside an execution is a violation of the property under check (memory safety is a
+// precondition of all of them); the report is printed by ASan, the schedule is recorded by the engine like any other violation
+#if defined(__SANITIZE_ADDRESS__)
+extern "C" __attribute__((used)) void __asan_on_error()
+{
+    std::string sig = vh::property() + ":asan";
+    cds_verif::fail_sig( sig.c_str(), "AddressSanitizer reported a memory error in library code during this execution (see the replay output)" );
+}
+#endif
+
+namespace vh {
 template <class R, class... A>
 inline std::function<std::unique_ptr<cdsmc::Run>()> maker( A... a )
 {
